@@ -289,6 +289,11 @@ impl<KV> Drop for Handler<KV> {
         // Releases the permit that was granted for this handler. Performing this
         // in the `Drop` implementation ensures that the permit is always
         // automatically returned when the handler finishes
+        #[cfg(feature = "verif")]
+        crate::verif::point(
+            "srv.handler_dropping",
+            &[("available", self.limit_connections.available_permits() as u64)],
+        );
         self.limit_connections.add_permits(1);
         #[cfg(feature = "verif")]
         crate::verif::point(
